@@ -260,14 +260,25 @@ def gen_scenario(rng, small=False):
         r = rng.random()
         if not small and how == 'explicit' and r < 0.12:
             wrong = rng.choice(['sig', 'member', 'path', 'nargs', 'retsig'])
-        kw = iface['name'] if rng.random() < 0.3 or _dup_member(spec, meth[0]) else None
+        # an explicit proxy may list the interfaces in its own order
+        order = 'rev' if (how == 'explicit' and not small and rng.random() < 0.3) else 'decl'
+        kw = iface['name'] if rng.random() < (0.5 if _dup_member(spec, meth[0]) else 0.3) else None
+        # the method the proxy rule selects: the first listed interface (named by `interface=`) having it
+        listed = list(reversed(spec['ifaces'])) if order == 'rev' else spec['ifaces']
+        for i2 in listed:
+            if kw is not None and i2['name'] != kw:
+                continue
+            hit = [m for m in i2['methods'] if m[0] == meth[0]]
+            if hit:
+                iface, meth = i2, hit[0]
+                break
         args = gen_body(rng, meth[1])
         bad_args = False
         if not small and rng.random() < 0.04 and meth[1] in ('i', 's', 'x'):
             args = [[1, 2]]
             bad_args = True
         calls.append({'caller': rng.randrange(n), 'export': ex, 'iface': iface['name'], 'member': meth[0],
-                      'how': how, 'wrong': wrong, 'kw': kw, 'bad_args': bad_args,
+                      'how': how, 'wrong': wrong, 'kw': kw, 'bad_args': bad_args, 'order': order,
                       'args': [valcodec.to_line(a) for a in args]})
     plans = []
     for e in exports:
@@ -345,6 +356,7 @@ class Run:
         self.problems = []       # oracle findings: (key, what, observed, expected)
         self.steps = []          # induced message-level schedule (for distinctness / stats)
         self.spy_unicast = 0     # unicast messages that reached the catch-all third party
+        self.saw_unparsable = False
         self.invoked = 0
 
     # -------------------------------------------------------------- setup
@@ -609,6 +621,8 @@ class Run:
                     self.expect.append('stray events %r' % (g[1:],))
                     continue
                 m = head[2]
+                if m.get('t') == 'unparsable':
+                    self.saw_unparsable = True
                 if direction == 'c2b':
                     self.steps.append('B%d' % i)
                     self.lines.append('toBus %d' % i)
@@ -676,7 +690,7 @@ class Run:
         from txdbus.interface import DBusInterface, Method
         spec = self.scn['exports'][call['export']]
         out = []
-        for i in spec['ifaces']:
+        for i in (list(reversed(spec['ifaces'])) if call.get('order') == 'rev' else spec['ifaces']):
             ms = []
             for m in i['methods']:
                 name, si, so = m[0], m[1], m[2]
@@ -719,6 +733,7 @@ class Run:
                 continue
             if member in i.methods:
                 decl = i.methods[member]
+                call['chosen_iface'] = i.name
                 break
         if decl is not None and len(args) == decl.nargs and decl.sigIn:
             self.add_unenc(decl.sigIn, args)
@@ -849,7 +864,12 @@ class Run:
         net = self.net
         if net.crashes:
             where = net.crashes[0][0]
-            if where.startswith('bus:'):
+            if self.saw_unparsable:
+                self.flag('unparsable-message-on-the-wire',
+                          'a peer wrote a message that does not parse (%s raised %s: %s)'
+                          % (where, net.crashes[0][1], net.crashes[0][2]), observed=[list(c) for c in net.crashes],
+                          expected='every message a txdbus peer writes parses')
+            elif where.startswith('bus:'):
                 self.flag('bus-reencode-crash',
                           'the bus raised %s while forwarding a message its sender had encoded: %s'
                           % (net.crashes[0][1], net.crashes[0][2]), observed=[list(c) for c in net.crashes],
@@ -882,6 +902,11 @@ class Run:
                           observed=len(invs), expected=1)
                 continue
             rec = invs[0]
+            if rec['iface'] != call.get('chosen_iface') or rec['member'] != call['member']:
+                self.flag('wrong-method-invoked', 'the exporter ran %s.%s for a proxy call of %s.%s'
+                          % (rec['iface'], rec['member'], call.get('chosen_iface'), call['member']),
+                          observed=[rec['iface'], rec['member']], expected=[call.get('chosen_iface'), call['member']])
+                continue
             sent_args = [wire_norm(valcodec.from_line(a)) for a in call['args']]
             if not py_equal(sent_args, [wire_norm(a) for a in rec['args']]):
                 self.flag('args-differ', 'the exported method received arguments different from those passed to the proxy',
